@@ -25,6 +25,9 @@ def legal_key(rng, plen, unicode_ok):
         return bytes(rng.choice(alphabet) for _ in range(L))
     if kind == "str":
         return "".join(chr(rng.randrange(0x21, 0x7f)) for _ in range(L))
+    if rng.random() < 0.25 and room >= 8:
+        # a key that is not in Unicode normal form C - a different key from its composed spelling
+        return rng.choice(["cafe\u0301", "e\u0301e\u0301", "\u212bngstrom", "\u1100\u1161k", "q\u037e"])
     out, n = [], 0
     while True:
         ch = rng.choice(UNI_CHARS + "abz09")
